@@ -20,15 +20,16 @@ const modPath = "github.com/tendermint/tendermint"
 
 // World is the resolved program: type-checked packages of /repo and their SSA form.
 type World struct {
-	RepoDir  string
-	Fset     *token.FileSet
-	Roots    []*packages.Package
-	ByPath   map[string]*packages.Package
-	Prog     *ssa.Program
-	SSAPkg   map[string]*ssa.Package
-	Funcs    []*ssa.Function // every in-scope source function (incl. anonymous), sorted
-	BuildCfg string
-	LoadS    float64
+	RepoDir   string
+	neverBusy map[*ssa.Function]bool // recursion guard of the never-nil helper test (classifyResult)
+	Fset      *token.FileSet
+	Roots     []*packages.Package
+	ByPath    map[string]*packages.Package
+	Prog      *ssa.Program
+	SSAPkg    map[string]*ssa.Package
+	Funcs     []*ssa.Function // every in-scope source function (incl. anonymous), sorted
+	BuildCfg  string
+	LoadS     float64
 
 	genv       *guardEnv
 	funcSet    map[*ssa.Function]bool
